@@ -72,9 +72,11 @@ def shrink(binary, failure, want, extra=None, budget=40, log_bytes=0):
     best = failure
     chunk = max(1, len(ops) // 2)
     runs = 0
-    while chunk >= 1 and runs < budget and len(ops) > 1:
+    import time as _time
+    t_end = _time.time() + 150          # failing inputs that hang cost a full timeout per run: bound the shrink by wall time too
+    while chunk >= 1 and runs < budget and len(ops) > 1 and _time.time() < t_end:
         i, progressed = 0, False
-        while i < len(ops) and runs < budget:
+        while i < len(ops) and runs < budget and _time.time() < t_end:
             cand = ops[:i] + ops[i + chunk:]
             # keep mask/async groups consistent: a 'mask k' op needs its k followers; simplest: drop masks whose followers vanish
             sc2 = T.Scenario(sc.n, sc.epochs, sc.params, sc.sizes, cand)
